@@ -493,7 +493,10 @@ def ws_accept(v):
     spk = v.choose(3, 'subprotocol')
     subprotocol = None if spk == 0 else (v.str('subprotocol') if spk == 1 else 42)
     headers, wire_headers, forbidden = header_arg(v)
-    out = v.call(ws, subprotocol, headers)
+    if subprotocol is None and headers is None and v.choose(2, 'arguments-omitted?'):
+        out = v.call(ws)  # accept(): the documented defaults are "no subprotocol, no headers"
+    else:
+        out = v.call(ws, subprotocol, headers)
 
     closed0 = e.state0 is St.CLOSED or e.disc0
     if closed0:
@@ -569,7 +572,10 @@ def ws_close(v):
     code = None if ck == 0 else (v.int('code') if ck == 1 else '1000')
     rk = v.choose(2, 'reason-arg')
     reason = None if rk == 0 else v.str('reason')
-    out = v.call(ws, code, reason)
+    if code is None and reason is None and v.choose(2, 'arguments-omitted?'):
+        out = v.call(ws)  # close(): the documented defaults are code 1000 and the configured default reason
+    else:
+        out = v.call(ws, code, reason)
 
     v.check('stops-the-receive-pump-first', And(e.rx.stops == 1, e.rx.stopped_before_first_send))
     if ck == 2:
@@ -989,17 +995,19 @@ class World:
 
     __pyvc_symbolic__ = True
 
-    def __init__(self, v, maxq):
+    def __init__(self, v, maxq, server_fates=(0, 1, 5), slice_=0):
         self.v = v
         self.maxq = maxq
+        self.slice = slice_
         self.sess = Session(CONNECTING, False)
-        # returns / lost (OSError) / other server error / close code refused ("invalid close code": read by _ws_cleanup_on_error).
-        # The other lost-connection shapes (2, 3, 4) are left out here, see NOT_DECIDED.
-        self.send = Send(v, self.sess, fates=(0, 1, 5, 6))
+        # returns / lost (OSError) / other server error [/ close code refused ("invalid close code": read by _ws_cleanup_on_error)].
+        # The other lost-connection shapes (2, 3, 4) are left out at app level, see NOT_DECIDED.
+        self.send = Send(v, self.sess, fates=server_fates)
         self.ws = None
         self.req = None
         self.final = None
         self.order = []
+        self.responder = self.request_mw = self.resource_mw = self.handler = None
         self.St = states(v)
 
     def see(self, args, kwargs):
@@ -1013,6 +1021,9 @@ class World:
                     v.check('one-socket-per-connection', a is self.ws)
                 self.ws = a
         return self.ws
+
+    def middleware_raised(self):
+        return any(p is not None and p.calls and p.fate is not None and p.fate != P_RETURNS for p in (self.request_mw, self.resource_mw))
 
     def havoc(self):
         """The participant used the public API: the socket is in an arbitrary state satisfying I."""
@@ -1042,6 +1053,22 @@ class World:
 
 P_RETURNS, P_HTTP_ERROR, P_HTTP_STATUS, P_DISCONNECTED, P_EXCEPTION, P_BOOM = range(6)
 
+# The variants of the _handle_websocket harness are cut along "slices" so that an input is multiplied only with the inputs
+# it interacts with in _handle_websocket / _handle_exception / the four error handlers / _ws_cleanup_on_error:
+#   S_BASE          every route kind x middleware? x custom handler? x queue; every responder outcome; middleware returns or
+#                   raises HTTPError / an unexpected exception; the custom handler declares `ws` and returns or raises
+#                   HTTPError / HTTPStatus / an unexpected exception; the server takes an event, loses the connection
+#                   (OSError) or refuses with some other error
+#   S_CODE_REFUSED  the server refuses the CODE of a close event ("invalid close code", Daphne): read by _ws_cleanup_on_error
+#                   only, which is entered through the WebSocketDisconnected / unexpected-exception handlers: responder raises
+#                   one of the two, all four server outcomes at every send
+#   S_MW_RAISES     a middleware method raises what S_BASE lets only the responder raise (HTTPStatus, WebSocketDisconnected,
+#                   the exception with a custom handler), for process_request_ws and process_resource_ws, every route kind:
+#                   runs in which no middleware method raises are cut (S_BASE)
+#   S_HANDLER_KINDS the custom handler does NOT declare a `ws` parameter (every handler outcome), and the handler outcome
+#                   "raises WebSocketDisconnected" (e.g. it tried to send on a closed socket) for a handler that does
+S_BASE, S_CODE_REFUSED, S_MW_RAISES, S_HANDLER_KINDS = range(4)
+
 
 @stubclass
 class Participant:
@@ -1066,6 +1093,8 @@ class Participant:
         ws = w.see(args, kwargs)
         fate = self.fates[v.choose(len(self.fates), self.name + '-does')]
         self.fate = fate
+        if w.slice == S_MW_RAISES and not w.middleware_raised() and (self is w.responder or (fate == P_RETURNS and self.last)):
+            v.cut()  # no middleware method raised: covered by S_BASE
         if ws is not None and (fate != P_RETURNS or self.last):
             w.havoc()
         if fate == P_RETURNS:
@@ -1194,13 +1223,28 @@ class WsOptions:
 def build_app(v, w, route_kind, with_mw, custom):
     """The App object around _handle_websocket (real App in concrete mode)."""
     resource = _Opaque('resource')
-    # a middleware method is application code like the responder: it may return or raise anything the responder may raise
-    fates = (P_RETURNS, P_HTTP_ERROR, P_HTTP_STATUS, P_DISCONNECTED, P_EXCEPTION) + ((P_BOOM,) if custom else ())
-    w.responder = Participant(w, 'responder', True, fates)
-    w.request_mw = Participant(w, 'process_request_ws', route_kind == UNROUTED, fates) if with_mw else None
-    w.resource_mw = Participant(w, 'process_resource_ws', route_kind == NO_RESPONDER, fates) if with_mw else None
-    handler_cls = ErrorHandler if getattr(w, 'handler_takes_ws', 1) else ErrorHandlerNoWs
-    w.handler = handler_cls(w, 'custom_handler', True, (P_RETURNS, P_HTTP_ERROR, P_HTTP_STATUS, P_DISCONNECTED, P_EXCEPTION)) if custom else None
+    boom = (P_BOOM,) if custom else ()
+    responder_fates = (P_RETURNS, P_HTTP_ERROR, P_HTTP_STATUS, P_DISCONNECTED, P_EXCEPTION) + boom
+    mw_fates = (P_RETURNS, P_HTTP_ERROR, P_EXCEPTION)
+    handler_cls, handler_fates = ErrorHandler, (P_RETURNS, P_HTTP_ERROR, P_HTTP_STATUS, P_EXCEPTION)
+    if w.slice == S_CODE_REFUSED:
+        responder_fates = (P_DISCONNECTED, P_EXCEPTION)
+    elif w.slice == S_MW_RAISES:
+        # a middleware method is application code like the responder: it may raise anything the responder may raise
+        # (with a custom handler registered for Boom only Boom is new: the registration does not interact with the other two)
+        # (the responder must not run at all once a middleware method raised; if it does, it just returns)
+        responder_fates, mw_fates = (P_RETURNS,), ((P_RETURNS, P_BOOM) if custom else (P_RETURNS, P_HTTP_STATUS, P_DISCONNECTED))
+    elif w.slice == S_HANDLER_KINDS:
+        responder_fates = (P_BOOM,)
+        # falcon passes the socket to an error handler only when its signature declares a `ws` parameter: both kinds of handler
+        if v.choose(2, 'handler-takes-ws?'):
+            handler_fates = (P_DISCONNECTED,)
+        else:
+            handler_cls, handler_fates = ErrorHandlerNoWs, (P_RETURNS, P_HTTP_ERROR, P_HTTP_STATUS, P_DISCONNECTED, P_EXCEPTION)
+    w.responder = Participant(w, 'responder', True, responder_fates)
+    w.request_mw = Participant(w, 'process_request_ws', route_kind == UNROUTED, mw_fates) if with_mw else None
+    w.resource_mw = Participant(w, 'process_resource_ws', route_kind == NO_RESPONDER, mw_fates) if with_mw else None
+    w.handler = handler_cls(w, 'custom_handler', True, handler_fates) if custom else None
     if route_kind == UNROUTED:
         route = None
     else:
@@ -1263,9 +1307,14 @@ def handle_websocket(v):
     route_kind = v.choose(3, 'route')
     with_mw = v.choose(2, 'middleware?')
     custom = v.choose(2, 'custom-error-handler?')
-    w = World(v, maxq)
-    # falcon passes the socket to an error handler only when its signature declares a `ws` parameter: both kinds of handler
-    w.handler_takes_ws = v.choose(2, 'handler-takes-ws?') if custom else 1
+    slice_ = v.choose(4, 'slice')  # fixed by every variant, see S_BASE ... S_HANDLER_KINDS
+    if slice_ == S_CODE_REFUSED:
+        v.expect_covers('close-code-refused')
+    elif slice_ == S_HANDLER_KINDS:
+        v.expect_covers('custom-handler-ran', 'custom-handler-without-ws-ran')
+    elif slice_ == S_MW_RAISES:
+        v.expect_covers('middleware-raised')
+    w = World(v, maxq, (0, 1, 5, 6) if slice_ == S_CODE_REFUSED else (0, 1, 5), slice_)
     s = w.sess
     app = build_app(v, w, route_kind, with_mw, custom)
     recv = AppReceive(v, s, {'type': 'websocket.connect'})
@@ -1305,7 +1354,7 @@ def handle_websocket(v):
             params_ok = h_params is w.params
         v.check('custom-handler-gets-the-request-no-response-the-raised-exception-and-the-route-params',
                 h_req is w.req and h_resp is None and (h_ex is raiser.error or getattr(h_ex, 'real', None) is raiser.error) and params_ok)
-        v.cover('custom-handler-ran')
+        v.cover('custom-handler-ran' if w.handler.takes_ws else 'custom-handler-without-ws-ran')
 
     # --- which close the statement demands ----------------------------------------------------------
     # cause: what ended the conversation
@@ -1329,6 +1378,8 @@ def handle_websocket(v):
         else:
             cause, want = 'handler-failed', None
     v.cover('cause:' + cause) if cause in ('unrouted', 'no-responder', 'returned', 'http', 'error') else None
+    if raiser is not None and raiser is not w.responder:
+        v.cover('middleware-raised')
 
     if w.final is None:
         # no participant touched the socket: it is as constructed
@@ -1389,19 +1440,24 @@ def handle_websocket(v):
     v.cover('closed-by-framework')
 
 
+def _variant(name, slice_, route, mw, custom, q):
+    harness(PROP, APP + '._handle_websocket', name='handle_websocket[%s]' % name, inline=APP_INLINE, setup=_setup_app,
+            fix={'slice': slice_, 'route': route, 'middleware?': mw, 'custom-error-handler?': custom, 'max_receive_queue': q})(handle_websocket)
+
+
 for _r, _rn in ((UNROUTED, 'unrouted'), (NO_RESPONDER, 'no-responder'), (ROUTED, 'routed')):
     for _mw in (0, 1):
         for _c in (0, 1):
-            if _c and _r != ROUTED and not _mw:
-                continue  # without a responder and without middleware no application code runs: the custom handler is unreachable
+            if _c and _r != ROUTED:
+                continue  # S_BASE: the custom handler is reached from the responder only (from middleware: S_MW_RAISES)
             for _q in (0, 1):
-                for _h in ((0, 1) if _c else (None,)):
-                    _fix = {'route': _r, 'middleware?': _mw, 'custom-error-handler?': _c, 'max_receive_queue': _q}
-                    _name = 'handle_websocket[%s,mw=%d,custom=%d,queue=%d]' % (_rn, _mw, _c, (0, 4)[_q])
-                    if _c:
-                        _fix['handler-takes-ws?'] = _h
-                        _name = _name[:-1] + ',handler-ws=%d]' % _h
-                    harness(PROP, APP + '._handle_websocket', name=_name, inline=APP_INLINE, setup=_setup_app, fix=_fix)(handle_websocket)
+                _variant('%s,mw=%d,custom=%d,queue=%d' % (_rn, _mw, _c, (0, 4)[_q]), S_BASE, _r, _mw, _c, _q)
+for _q in (0, 1):
+    _variant('close-code-refused,queue=%d' % (0, 4)[_q], S_CODE_REFUSED, ROUTED, 0, 0, _q)
+    _variant('handler-kinds,queue=%d' % (0, 4)[_q], S_HANDLER_KINDS, ROUTED, 0, 1, _q)
+    for _r, _rn in ((UNROUTED, 'unrouted'), (NO_RESPONDER, 'no-responder'), (ROUTED, 'routed')):
+        for _c in (0, 1):
+            _variant('middleware-raises,%s,custom=%d,queue=%d' % (_rn, _c, (0, 4)[_q]), S_MW_RAISES, _r, 1, _c, _q)
 
 
 @harness(PROP, APP + '._handle_websocket', name='handshake_abandoned', inline=APP_INLINE, setup=_setup_app)
